@@ -1,6 +1,6 @@
 (* C12, part 5: iterators of projected views (leading and flat), projections of views with non-zero index
    bases, and the based form of conversion-construction. *)
-From BM Require Import Base.Tactics Model.Layout Model.View Model.Spec Model.Iter Model.Rebase Model.ProjectC12
+From BM Require Import Base.Tactics Model.Layout Model.View Model.Spec Model.Iter Model.Rebase Model.ProjectC12Based Model.ProjectC12
   Model.ProjectC12Walk
   Proofs.LayoutProofs Proofs.ViewProofs Proofs.ViewProofs2 Proofs.IterProofs Proofs.ElemProofs Proofs.C01Main
   Proofs.C02Main Proofs.RebaseProofs Proofs.ProjectC12Scale Proofs.ProjectC12Compose Proofs.ProjectC12Convert
@@ -60,14 +60,15 @@ Proof.
   intros Hok HU HT Hd. destruct (lay (p_view x)) as [|d l] eqn:E; [inv Hok|].
   rewrite dom_scale_cons in Hd. apply andb_true_iff in Hd. destruct Hd as [H Hd2]. apply Z.eqb_eq in H.
   inversion Hok as [|? ? ? ? Hdim Hrest]; subst. destruct Hdim as (Ho & _).
-  assert (EM : lay (p_view (p_member_cast szU moff x)) = d_scale (p_esz x) szU d :: l_scale (p_esz x) szU l).
+  assert (EM : lay (p_view (p_member_cast szU moff x)) = d_scale_b (p_esz x) szU d :: l_scale_b (p_esz x) szU l).
   { unfold p_member_cast, p_rebase; cbn [p_view lay]. rewrite E. reflexivity. }
   split; [|split].
   - rewrite lay_index, EM. unfold p_member_cast, p_rebase; cbn [p_view lay tl]. rewrite lay_index, E. reflexivity.
   - reflexivity.
   - rewrite (p_ptr_index r _ _ _ EM).
-    unfold p_member_cast at 1 2 3. unfold p_rebase, p_ptr at 1 3; cbn [p_view p_org p_esz base d_scale d_stride d_offset].
+    unfold p_member_cast at 1 2 3. unfold p_rebase, p_ptr at 1 3; cbn [p_view p_org p_esz base d_scale_b d_stride d_offset].
     rewrite esz_index, (p_ptr_index r x d l E), Ho.
+    replace (Z.quot (0 * p_esz x) szU) with 0 by (rewrite Z.mul_0_l; symmetry; apply Z.quot_0_l; lia).
     pose proof (quot_exact (d_stride d) (p_esz x) szU ltac:(lia) H) as Q.
     unfold p_ptr; cbn [p_view p_org p_esz base].
     set (q := Z.quot (d_stride d * p_esz x) szU) in *. clearbody q.
@@ -84,11 +85,12 @@ Proof.
   destruct (p_reinterpret_n_lay szU cnt x) as (L1 & B1 & O1 & S1).
   destruct (p_reinterpret_n_lay szU cnt (p_index r x)) as (L2 & B2 & O2 & S2).
   unfold pv_same. rewrite lay_index, esz_index, L1, L2, S1, S2, lay_index, esz_index, E.
-  cbn [l_scale map app tl]. split; [reflexivity|]. split; [reflexivity|].
-  rewrite (p_ptr_index r _ (d_scale (p_esz x) szU d) (l_scale (p_esz x) szU l ++ [mkdim 1 0 cnt])).
+  cbn [l_scale_b map app tl]. split; [reflexivity|]. split; [reflexivity|].
+  rewrite (p_ptr_index r _ (d_scale_b (p_esz x) szU d) (l_scale_b (p_esz x) szU l ++ [mkdim 1 0 cnt])).
   2:{ rewrite L1, E. reflexivity. }
-  unfold p_ptr at 1 2. rewrite B1, O1, S1, B2, O2, S2. cbn [d_scale d_stride d_offset].
+  unfold p_ptr at 1 2. rewrite B1, O1, S1, B2, O2, S2. cbn [d_scale_b d_stride d_offset].
   rewrite (p_ptr_index r x d l E), Ho.
+  replace (Z.quot (0 * p_esz x) szU) with 0 by (rewrite Z.mul_0_l; symmetry; apply Z.quot_0_l; lia).
   pose proof (quot_exact (d_stride d) (p_esz x) szU ltac:(lia) H) as Q.
   set (q := Z.quot (d_stride d * p_esz x) szU) in *. clearbody q.
   replace (szU * (r * q - 0)) with (r * (q * szU)) by ring. rewrite Q. ring.
@@ -334,19 +336,6 @@ Proof.
   replace (szU * (i * q - f * q + 0)) with ((i - f) * (q * szU)) by ring. rewrite Q. ring.
 Qed.
 
-(* the two-argument scale asserts offset_ == 0 (layout.hpp:987): a view with a non-empty re-based dimension is
-   outside the domain of member_cast / reinterpret_array_cast<U>(n) / the non-const reinterpret_array_cast<U>() *)
-Lemma dom_scale_off_zero_based l sz : lay_ok l sz -> dom_scale_off l = true.
-Proof.
-  induction 1 as [|d n l sz (Ho & _) _ IH]; [reflexivity|]. cbn [dom_scale_off forallb]. fold (dom_scale_off l).
-  rewrite Ho, IH. reflexivity.
-Qed.
-Lemma dom_scale_off_based d l f n : dim_okg d f n -> 0 < n -> f <> 0 -> dom_scale_off (d :: l) = false.
-Proof.
-  intros (Ho & _ & _ & Hs) Hn Hf. specialize (Hs Hn). cbn [dom_scale_off forallb].
-  replace (d_offset d =? 0) with false; [reflexivity|]. symmetry. apply Z.eqb_neq. nia.
-Qed.
-
 (* ---- index bases: the casts that keep (layout, base) and element_transformed, on every re-based reachable view ---- *)
 Lemma lok_okg l : lok l -> exists fn, lay_okg l fn.
 Proof.
@@ -416,11 +405,6 @@ Proof.
     exists c. split; [exact Hc|]. split; [|intros E; contradiction].
     intros _. split; [exact He|]. split; [rewrite Hs, Esz; reflexivity|]. split; [exact Hlen|exact Hat].
 Qed.
-
-Theorem C12_scale_offset_assertion_proved :
-     (forall l sz, lay_ok l sz -> dom_scale_off l = true)
-  /\ (forall d l f n, dim_okg d f n -> 0 < n -> f <> 0 -> dom_scale_off (d :: l) = false).
-Proof. exact (conj dom_scale_off_zero_based dom_scale_off_based). Qed.
 
 Theorem C12_convert_construct_based_proved :
   forall (A B : Type) (conv : A -> B) (rd : Z -> A) (l : layout) (fn : list (Z * Z)),
